@@ -431,7 +431,7 @@ class Sim:
         self.high = {}
         self.loads = 0
         self.emitted_guess = 0
-        self.no_lose = False
+        self.stale = False          # a rejected handshake followed a LOAD: frames of rejected 0-RTT packets exist
 
 
 def gen_case(rng, name, cfg=None, nops=None, hostile=0.25):
@@ -478,9 +478,10 @@ def gen_case(rng, name, cfg=None, nops=None, hostile=0.25):
             rej = 1 if (sim.mode == 1 and rng.random() < 0.3) else 0
             ops.append((0, [rej]))
             sim.hs = True
-            # a frame of a rejected 0-RTT packet is not reported lost afterwards (the streams have forgotten it; BufMap::may_loss
-            # requires sent data): no LOSE after a rejection that follows a LOAD
-            sim.no_lose = bool(rej and sim.loads > 0)
+            # frames of a rejected 0-RTT packet ARE reported lost afterwards (the Data-space sent journal keeps their records and
+            # loss detection declares the packets lost): after a rejection that follows a LOAD, LOSE is generated more often
+            # (finding F70, repaired: SendBuf::may_loss_data ignores the part of the range that is pending again)
+            sim.stale = bool(rej and sim.loads > 0)
             continue
         r = rng.random()
         if r < 0.12:
@@ -557,8 +558,10 @@ def gen_case(rng, name, cfg=None, nops=None, hostile=0.25):
         elif r < 0.99:
             ops.append((14, [some_peer() if rng.random() < 0.5 else some_local(), rng.randint(0, 5000)]))
         else:
-            if sim.emitted_guess and not sim.no_lose:
+            if sim.emitted_guess:
                 ops.append((15, [rng.randint(0, sim.emitted_guess)]))
+        if sim.stale and rng.random() < 0.25:
+            ops.append((15, [rng.randint(0, 3)]))       # one of the first frames = a frame of a rejected 0-RTT packet
     return Case(name, ops, cfg)
 
 
